@@ -262,6 +262,257 @@ theorem neutral_utf16Be (s : Utf16St) (bytes : List Nat) :
 theorem neutral_utf16Le (s : Utf16St) (bytes : List Nat) :
     (l1Variant .utf16Le s bytes).isSome = false := rfl
 
+/-! ### `l1_answer`: the answer in every life-cycle state, for every variant -/
+
+/-- The neutral state of the variant decoder of `v`: the state is THE initial state of the
+family (`Fam.init`, `neutralSt_iff_init`) and the encoding is not one of the three that are
+never byte-compatible. The two stateless compatible families (`σ = Unit`) are always
+neutral. For UTF-8 the test of the code is `needed = 0`; on every state the decoder can
+reach this is the initial state (`utf8_needed_zero_iff_init`), and a state with
+`needed = 0` behaves like it whatever the other fields hold (`neutral_pass`). -/
+def NeutralSt : (v : Gen.Variant) → (famOfVariant v).σ → Prop
+  | .singleByte _ _ _ _, _ => True
+  | .utf8, s => Utf8St.needed s = 0
+  | .gbk, s => @Eq GbSt s gbInit
+  | .gb18030, s => @Eq GbSt s gbInit
+  | .big5, s => @Eq (Option Nat) s none
+  | .eucJp, s => @Eq EucJpSt s EucJpSt.none
+  | .iso2022Jp, s => @Eq Iso2022JpSt s isoInit
+  | .shiftJis, s => @Eq (Option Nat) s none
+  | .eucKr, s => @Eq (Option Nat) s none
+  | .replacement, _ => False
+  | .utf16Be, _ => False
+  | .utf16Le, _ => False
+  | .userDefined, _ => True
+
+instance NeutralSt.dec : (v : Gen.Variant) → (s : (famOfVariant v).σ) → Decidable (NeutralSt v s)
+  | .singleByte _ _ _ _, _ => isTrue trivial
+  | .utf8, s => inferInstanceAs (Decidable (Utf8St.needed s = 0))
+  | .gbk, s => (inferInstance : DecidableEq GbSt) s gbInit
+  | .gb18030, s => (inferInstance : DecidableEq GbSt) s gbInit
+  | .big5, s => (inferInstance : DecidableEq (Option Nat)) s none
+  | .eucJp, s => (inferInstance : DecidableEq EucJpSt) s EucJpSt.none
+  | .iso2022Jp, s => (inferInstance : DecidableEq Iso2022JpSt) s isoInit
+  | .shiftJis, s => (inferInstance : DecidableEq (Option Nat)) s none
+  | .eucKr, s => (inferInstance : DecidableEq (Option Nat)) s none
+  | .replacement, _ => isFalse id
+  | .utf16Be, _ => isFalse id
+  | .utf16Le, _ => isFalse id
+  | .userDefined, _ => isTrue trivial
+
+/-- the encodings whose decoder never answers -/
+def neverCompatible : Gen.Variant → Bool
+  | .replacement | .utf16Be | .utf16Le => true
+  | _ => false
+
+/-- for every variant but UTF-8: neutral = compatible encoding in the initial state of its family -/
+theorem neutralSt_iff_init (v : Gen.Variant) (hv : v ≠ .utf8) (s : (famOfVariant v).σ) :
+    NeutralSt v s ↔ neverCompatible v = false ∧ s = (famOfVariant v).init := by
+  cases v with
+  | utf8 => exact absurd rfl hv
+  | singleByte t a b c => exact ⟨fun _ => ⟨rfl, rfl⟩, fun _ => trivial⟩
+  | userDefined => exact ⟨fun _ => ⟨rfl, rfl⟩, fun _ => trivial⟩
+  | replacement => exact ⟨fun h => h.elim, fun h => by cases h.1⟩
+  | utf16Be => exact ⟨fun h => h.elim, fun h => by cases h.1⟩
+  | utf16Le => exact ⟨fun h => h.elim, fun h => by cases h.1⟩
+  | gbk => exact ⟨fun h => ⟨rfl, h⟩, fun h => h.2⟩
+  | gb18030 => exact ⟨fun h => ⟨rfl, h⟩, fun h => h.2⟩
+  | big5 => exact ⟨fun h => ⟨rfl, h⟩, fun h => h.2⟩
+  | eucJp => exact ⟨fun h => ⟨rfl, h⟩, fun h => h.2⟩
+  | iso2022Jp => exact ⟨fun h => ⟨rfl, h⟩, fun h => h.2⟩
+  | shiftJis => exact ⟨fun h => ⟨rfl, h⟩, fun h => h.2⟩
+  | eucKr => exact ⟨fun h => ⟨rfl, h⟩, fun h => h.2⟩
+
+/-- the states a family can be in: everything `run`/`call`/`ref` can produce from `Fam.init` -/
+inductive Reach (F : Fam) : F.σ → Prop
+  | init : Reach F F.init
+  | feed (s : F.σ) (b : Nat) : Reach F s → Reach F (F.feed s b).st
+  | eof (s : F.σ) (e : Nat × Nat) (s' : F.σ) : Reach F s → F.eof s = some (e, s') → Reach F s'
+  | pend (s : F.σ) (o : List Nat) (s' : F.σ) : Reach F s → F.pend s = some (o, s') → Reach F s'
+  | alt (s : F.σ) (src : List Nat) (m : Nat) (r : FeedRes F.σ) : Reach F s → F.alt s src = some (m, r) → Reach F r.st
+
+theorem utf8Feed_needed_zero (s : Utf8St) (b : Nat) (h : s.needed = 0 → s = utf8Init) :
+    (utf8Feed s b).st.needed = 0 → (utf8Feed s b).st = utf8Init := by
+  unfold utf8Feed
+  by_cases hn : s.needed = 0
+  · have hs := h hn
+    subst hs
+    simp only [utf8Init, if_true]
+    repeat' split
+    all_goals simp [FeedRes.ok, FeedRes.bad]
+  · simp only [hn, if_false]
+    repeat' split
+    all_goals simp [FeedRes.ok, FeedRes.bad, hn]
+
+/-- UTF-8: on every reachable state `needed = 0` (the test of `Utf8Decoder::in_neutral_state`)
+holds exactly in the initial state -/
+theorem utf8_reach_inv : ∀ (s : utf8Fam.σ), Reach utf8Fam s → Utf8St.needed s = 0 → s = utf8Init := by
+  intro s h
+  induction h with
+  | init => intro _; rfl
+  | feed s b _ ih => exact utf8Feed_needed_zero s b ih
+  | eof s e s' _ he _ =>
+    intro _
+    have he' : (if Utf8St.needed s ≠ 0 then some ((Utf8St.seen s + 1, 0), utf8Init) else none) = some (e, s') := he
+    split at he'
+    · cases he'; rfl
+    · cases he'
+  | pend s o s' _ hp _ => cases hp
+  | alt s src m r _ ha _ => cases ha
+
+theorem utf8_needed_zero_iff_init (s : Utf8St) (h : Reach utf8Fam s) : s.needed = 0 ↔ s = utf8Init :=
+  ⟨utf8_reach_inv s h, fun e => by rw [e]; rfl⟩
+
+/-- the variant test accepts exactly the neutral states, uniformly in the variant -/
+theorem l1Variant_isSome_iff (v : Gen.Variant) (s : (famOfVariant v).σ) (bytes : List Nat) :
+    (l1Variant v s bytes).isSome = true ↔ NeutralSt v s := by
+  cases v with
+  | singleByte t a b c => exact ⟨fun _ => trivial, fun _ => rfl⟩
+  | utf8 => exact neutral_utf8 s bytes
+  | gbk => exact neutral_gbk s bytes
+  | gb18030 => exact neutral_gb s bytes
+  | big5 => exact neutral_big5 s bytes
+  | eucJp => exact neutral_eucJp s bytes
+  | iso2022Jp => exact neutral_iso s bytes
+  | shiftJis => exact neutral_shiftJis s bytes
+  | eucKr => exact neutral_eucKr s bytes
+  | replacement => exact ⟨fun h => (by cases h), fun h => h.elim⟩
+  | utf16Be => exact ⟨fun h => (by cases h), fun h => h.elim⟩
+  | utf16Le => exact ⟨fun h => (by cases h), fun h => h.elim⟩
+  | userDefined => exact ⟨fun _ => trivial, fun _ => rfl⟩
+
+/-- the number the variant decoder of `v` answers with when it answers -/
+def l1LenV : Gen.Variant → List Nat → Nat
+  | .singleByte t _ _ _, bytes => singleByteL1 (Gen.singleByteTables.getD t #[]) bytes
+  | .iso2022Jp, bytes => iso2022JpAsciiValidUpTo bytes
+  | _, bytes => asciiValidUpTo bytes
+
+theorem l1Variant_value (v : Gen.Variant) (s : (famOfVariant v).σ) (bytes : List Nat) (n : Nat)
+    (h : l1Variant v s bytes = some n) : n = l1LenV v bytes := by
+  cases v
+  case singleByte t a b c => exact (Option.some.inj h).symm
+  case userDefined => exact (Option.some.inj h).symm
+  case replacement => cases h
+  case utf16Be => cases h
+  case utf16Le => cases h
+  all_goals
+    simp only [l1Variant] at h
+    split at h
+    · exact (Option.some.inj h).symm
+    · cases h
+
+/-- closed form of the variant-level answer -/
+theorem l1Variant_answer (v : Gen.Variant) (s : (famOfVariant v).σ) (bytes : List Nat) :
+    l1Variant v s bytes = if NeutralSt v s then some (l1LenV v bytes) else none := by
+  by_cases hN : NeutralSt v s
+  · rw [if_pos hN]
+    have h := (l1Variant_isSome_iff v s bytes).2 hN
+    cases hv : l1Variant v s bytes with
+    | none => rw [hv] at h; cases h
+    | some n => rw [l1Variant_value v s bytes n hv]
+  · rw [if_neg hN]
+    cases hv : l1Variant v s bytes with
+    | none => rfl
+    | some n => exact absurd ((l1Variant_isSome_iff v s bytes).1 (by rw [hv]; rfl)) hN
+
+/-- neutrality of whichever decoder is current: the nominal one in its neutral state, or the
+UTF-8 decoder a BOM switched to with no sequence pending; the UTF-16 decoders never -/
+def NeutralCur (v : Gen.Variant) : Cur (famOfVariant v) → Prop
+  | .nominal s => NeutralSt v s
+  | .utf8 s => Utf8St.needed s = 0
+  | .utf16be _ => False
+  | .utf16le _ => False
+
+instance NeutralCur.dec (v : Gen.Variant) : (c : Cur (famOfVariant v)) → Decidable (NeutralCur v c)
+  | .nominal s => NeutralSt.dec v s
+  | .utf8 s => inferInstanceAs (Decidable (Utf8St.needed s = 0))
+  | .utf16be _ => isFalse id
+  | .utf16le _ => isFalse id
+
+/-- **the neutral decoder**: the BOM life cycle is over and not finished (`Converting`: no BOM
+byte withheld, no `BB` pending, not waiting for the start of the stream, not finished) and the
+current variant decoder is in its neutral state -/
+def Neutral (v : Gen.Variant) (d : Decoder (famOfVariant v)) : Prop :=
+  d.life = .converting ∧ NeutralCur v d.cur
+
+instance Neutral.dec (v : Gen.Variant) (d : Decoder (famOfVariant v)) : Decidable (Neutral v d) :=
+  inferInstanceAs (Decidable (_ ∧ _))
+
+/-- the number a neutral decoder answers with -/
+def l1Len (v : Gen.Variant) : Cur (famOfVariant v) → List Nat → Nat
+  | .nominal _, bytes => l1LenV v bytes
+  | _, bytes => asciiValidUpTo bytes
+
+theorem l1_value (v : Gen.Variant) (d : Decoder (famOfVariant v)) (bytes : List Nat) (hN : Neutral v d) :
+    Decoder.l1 v d bytes = some (l1Len v d.cur bytes) := by
+  obtain ⟨life, cur⟩ := d
+  obtain ⟨hl, hc⟩ := hN
+  simp only at hl hc
+  subst hl
+  cases cur with
+  | nominal s =>
+    have hc' : NeutralSt v s := hc
+    exact (l1Variant_answer v s bytes).trans (if_pos hc')
+  | utf8 s =>
+    have hc' : NeutralSt .utf8 s := hc
+    exact (l1Variant_answer .utf8 s bytes).trans (if_pos hc')
+  | utf16be s => exact hc.elim
+  | utf16le s => exact hc.elim
+
+theorem l1_none_of_not_neutral (v : Gen.Variant) (d : Decoder (famOfVariant v)) (bytes : List Nat)
+    (hN : ¬ Neutral v d) : Decoder.l1 v d bytes = none := by
+  by_cases hl : d.life = .converting
+  · obtain ⟨life, cur⟩ := d
+    simp only at hl
+    subst hl
+    have hc : ¬ NeutralCur v cur := fun h => hN ⟨rfl, h⟩
+    cases cur with
+    | nominal s =>
+      have hc' : ¬ NeutralSt v s := hc
+      exact (l1Variant_answer v s bytes).trans (if_neg hc')
+    | utf8 s =>
+      have hc' : ¬ NeutralSt .utf8 s := hc
+      exact (l1Variant_answer .utf8 s bytes).trans (if_neg hc')
+    | utf16be s => rfl
+    | utf16le s => rfl
+  · exact l1_none_lifecycle v d bytes hl
+
+/-- **C19 (`l1_answer`)**: the answer of `Decoder::latin1_byte_compatible_up_to` in closed form,
+for every variant, every life-cycle state and every state of the current variant decoder:
+`Some` of the exact prefix length when the decoder is neutral, `None` in every other state
+(a BOM byte withheld, `BB` pending, at the start of the stream, finished, a UTF-16 decoder
+current after a BOM switch, nominal UTF-16 / replacement, a lead byte or partial sequence
+pending, ISO-2022-JP outside its ASCII state or with an escape sequence half read). -/
+theorem l1_answer (v : Gen.Variant) (d : Decoder (famOfVariant v)) (bytes : List Nat) :
+    Decoder.l1 v d bytes = if Neutral v d then some (l1Len v d.cur bytes) else none := by
+  by_cases hN : Neutral v d
+  · rw [if_pos hN]; exact l1_value v d bytes hN
+  · rw [if_neg hN]; exact l1_none_of_not_neutral v d bytes hN
+
+theorem l1_some_iff (v : Gen.Variant) (d : Decoder (famOfVariant v)) (bytes : List Nat) :
+    (Decoder.l1 v d bytes).isSome = true ↔ Neutral v d := by
+  rw [l1_answer]
+  by_cases hN : Neutral v d
+  · rw [if_pos hN]; exact ⟨fun _ => hN, fun _ => rfl⟩
+  · rw [if_neg hN]; exact ⟨fun h => (by cases h), fun h => absurd h hN⟩
+
+theorem l1_none_iff (v : Gen.Variant) (d : Decoder (famOfVariant v)) (bytes : List Nat) :
+    Decoder.l1 v d bytes = none ↔ ¬ Neutral v d := by
+  rw [l1_answer]
+  by_cases hN : Neutral v d
+  · rw [if_pos hN]; exact ⟨fun h => (by cases h), fun h => absurd hN h⟩
+  · rw [if_neg hN]; exact ⟨fun _ => hN, fun _ => rfl⟩
+
+/-- an answer `some n` means: neutral, and `n` is the closed-form length -/
+theorem l1_eq_some_iff (v : Gen.Variant) (d : Decoder (famOfVariant v)) (bytes : List Nat) (n : Nat) :
+    Decoder.l1 v d bytes = some n ↔ Neutral v d ∧ n = l1Len v d.cur bytes := by
+  rw [l1_answer]
+  by_cases hN : Neutral v d
+  · rw [if_pos hN]
+    exact ⟨fun h => ⟨hN, (Option.some.inj h).symm⟩, fun h => by rw [h.2]⟩
+  · rw [if_neg hN]
+    exact ⟨fun h => (by cases h), fun h => absurd h.1 hN⟩
+
 /-! Non-vacuity -/
 example : singleByteL1 (Gen.singleByteTables.getD 19 #[]) [0x61, 0xE9, 0x62, 0x80, 0x63] = 3 := by decide +kernel
 example : asciiValidUpTo [0x61, 0x62, 0xE9] = 2 := by decide
